@@ -261,7 +261,7 @@ func runSanity(op Opaque) (ok int, failures []string, viol []sanityViolation) {
 			var out Outcome
 			if im != nil {
 				out = im.Run(rec)
-				obs = &Observed{Counters: out.Deltas, Final: out.Fields}
+				obs = &Observed{Counters: out.Deltas}
 			}
 			results := ref.RunAll(sc.prog, rec.Fields, rec.Unescaped, rec.RawLength, obs)
 			res := results[0]
